@@ -34,7 +34,11 @@ func isTchar(c byte) bool {
 }
 
 // parseResponse parses exactly one response and requires that nothing follows it.
-func parseResponse(b []byte) (*response, error) {
+func parseResponse(b []byte) (*response, error) { return parseResponseOf(b, false) }
+
+// parseResponseOf: the response to a HEAD request has no body whatever its Content-Length says, and the
+// Content-Length field itself is optional there.
+func parseResponseOf(b []byte, head bool) (*response, error) {
 	r := &response{}
 	eol := bytes.Index(b, []byte("\r\n"))
 	if eol < 0 {
@@ -109,6 +113,12 @@ func parseResponse(b []byte) (*response, error) {
 			}
 			r.SetCookies = append(r.SetCookies, sc)
 		}
+	}
+	if head {
+		if len(b) != p {
+			return nil, fmt.Errorf("%d bytes behind the header block of the response to a HEAD request", len(b)-p)
+		}
+		return r, nil
 	}
 	if cl < 0 {
 		return nil, errors.New("no Content-Length")
